@@ -176,6 +176,17 @@ def check(ctx, rep):
         rep.ob('accessors.through-view-buffer', 'Arrays.%s reaches the element only through view_buffer(name, index)' % meth, ok,
                'a result that does not come from view_buffer skips check_dim: an undeclared array is not dimensioned on first use and subscripts are not checked (%s)'
                % [short(r, 50) for r in rets], ctx.where(m))
+    # the space that is checked to be free is the space that is then taken (record header + element buffer)
+    from ..algebra import lin as _lin
+    chk = [c for c in own_nodes(al) if isinstance(c, ast.Call) and norm(c.func) == 'self._memory.check_free' and c.args]
+    take = [a for a in own_nodes(al) if isinstance(a, ast.AugAssign) and norm(a.target) == 'self.current' and isinstance(a.op, ast.Add)]
+    defs_ = dict((norm(a.targets[0]), a.value) for a in own_nodes(al) if isinstance(a, ast.Assign) and isinstance(a.targets[0], ast.Name))
+
+    def _expand(e):
+        return _lin(defs_[e.id]) if isinstance(e, ast.Name) and e.id in defs_ and isinstance(defs_[e.id], ast.BinOp) else _lin(e)
+    rep.ob('allocate.checks-what-it-takes', 'allocate checks free memory for exactly the bytes it adds to `current`',
+           len(chk) == 1 and len(take) == 1 and _expand(chk[0].args[0]) == _expand(take[0].value),
+           'checked %s, taken %s: in nearly full memory the array lands on the lowest strings' % (norm(chk[0].args[0]) if chk else None, norm(take[0].value) if take else None), ctx.where(al))
     dup = [r for r, c in ctx.raises_in(al) if c == 'DUPLICATE_DEFINITION']
     rep.ob('allocate.duplicate', 'an existing array cannot be redimensioned', len(dup) == 1 and fl.knows(dup[0], 'name in self._dims', True), '', ctx.where(al))
     cf = [n for n in own_nodes(al) if isinstance(n, ast.Call) and norm(n.func) == 'self._memory.check_free']
@@ -267,6 +278,8 @@ def variants(ctx):
         Va('erase-returns-space-of-last-array-only', 'break', A, in_fn('Arrays.erase_', _dedent_decrement), expect='erase.space-returned-per-array'),
         Va('subscripts-converted-unsigned', 'break', 'pcbasic/basic/parser/expressions.py',
            lambda tree: mu.replace_expr(mu.find_def(tree, 'ExpressionParser.parse_indices'), mu.text_is('values.to_int(expr)'), 'values.to_int(expr, unsigned=True)'), expect='subscripts.signed-conversion'),
+        Va('allocate-checks-buffer-only', 'break', A,
+           in_fn('Arrays.allocate', lambda fn: mu.replace_expr(fn, mu.text_is('self._memory.check_free(total_bytes, error.OUT_OF_MEMORY)'), 'self._memory.check_free(array_bytes, error.OUT_OF_MEMORY)')), expect='allocate.checks-what-it-takes'),
         Va('auto-dim-11', 'break', A,
            in_fn('Arrays.check_dim', lambda fn: mu.replace_expr(fn, mu.text_is('[10] * len(index)'), '[11] * len(index)')), expect='auto-dim'),
         Va('radix-too-small', 'break', A,
